@@ -154,7 +154,8 @@ def direct_oracle(ck, e):
         ok = [r for r in rs if r.startswith("OK")]
         if ok and (len(ok) != len(rs) or len(set(rs)) != 1):
             bad.append((["export", "fields", "values", "json-text"][obs], rs))
-    return bad, {"variants": [g.nickel(v) for v in vs], "outputs": out}
+    names = ["as written", "operands swapped", "fields permuted", "both"]
+    return bad, {"variants": {nm: g.nickel(v) for nm, v in zip(names, vs)}, "outputs": out, "mech": True}
 
 
 def tie(ck, exe, exprs, label, detect_order=True):
@@ -173,7 +174,7 @@ def tie(ck, exe, exprs, label, detect_order=True):
         I = impl[7 * i:7 * i + 7]
         M = mod[i].split("\t")
         ck.case(key="mech:" + g.sexp(e), nontrivial=(g.size(e) >= 6))
-        if len(M) != 8:
+        if len(M) != 9 or M[8] != "WF":
             ck.obligation("generator-in-domain(mech)", "internal", False, "%s -> %s" % (g.nickel(e), mod[i]))
             continue
         ck.hist(label + " outcome", m.outcome_class(I[0]))
@@ -277,6 +278,31 @@ def parse_sexp(s):
         raise ValueError(x)
 
     return conv(item())
+
+
+def setup():
+    """./verif setup: the mechanism-level Coq targets and the extracted mechanism model"""
+    rc, out = core.coq_make(["Props/C05_mech.vo", "Props/C05_mech_pins.vo", "Props/C15_mech.vo", "Props/C15_mech_pins.vo"], timeout=3400)
+    if rc:
+        print("setup: mechanism-level Coq targets do not build (C05/C15 will report it):\n" + out[-1500:])
+    rc2, out2, exe = core.ocaml_build("c05mech", "C05mech.v", "driver.ml")
+    if rc2:
+        print(out2[-2000:])
+    return 1 if (rc or rc2) else 0
+
+
+def replay(ck, obj):
+    """replay of a violation reported by tie(): the direct oracle around the recorded program"""
+    if not ck.harness(["nkeval"]):
+        return
+    e = parse_sexp(obj["sexp"])
+    ck.case(key="mech-replay:" + obj["sexp"])
+    bad, rep = direct_oracle(ck, e)
+    rep.update({"program": g.nickel(e), "sexp": obj["sexp"], "prelude": g.PRELUDE})
+    if any(m.crashed(x) for x in rep["outputs"]):
+        ck.violation("crash", "interpreter crashed on " + g.nickel(e)[:200], rep)
+    for what, rs in bad:
+        ck.violation("order:" + what, "%s of a merge depends on operand/definition order: %s" % (what, " | ".join(r[:60] for r in rs)), rep)
 
 
 def run(ck, pid):
